@@ -632,6 +632,7 @@ func (ip *Interp) execIf(fr *frame, b *ssa.BasicBlock, x *ssa.If, st *State) []O
 		ct = mkUnknown("cond", types.Typ[types.Bool])
 	}
 	c := condOf(ct, false)
+	c.Orig = ct
 	if c.Pos == token.NoPos {
 		c.Pos = x.Cond.Pos()
 	}
